@@ -39,6 +39,8 @@ class Ty:
             return '%' + self.a
         if k == 'array':
             return '[%d x %r]' % (self.a, self.b)
+        if k == 'vec':
+            return '<%d x %r>' % (self.a, self.b)
         if k == 'lit':
             return '{ ' + ', '.join(map(repr, self.a)) + ' }'
         if k == 'fn':
@@ -213,7 +215,11 @@ class P:
                 self.expect('>')
                 t = Ty('lit', tuple(el), 'packed')
             else:
-                raise ParseError('vector type')
+                n = int(self.next()[1])
+                self.expect_id('x')
+                e = self.type()
+                self.expect('>')
+                t = Ty('vec', n, e)
         else:
             raise ParseError('bad type start %r' % v)
         while True:
@@ -585,6 +591,18 @@ def parse_instr(line):
                 break
             idx.append(int(p.next()[1]))
         ins = Instr(op, res, a.ty, [a, b], {'idx': idx})
+    elif op == 'insertelement':
+        a = p.tvalue()
+        p.expect(',')
+        b = p.tvalue()
+        p.expect(',')
+        c = p.tvalue()
+        ins = Instr(op, res, a.ty, [a, b, c])
+    elif op == 'extractelement':
+        a = p.tvalue()
+        p.expect(',')
+        c = p.tvalue()
+        ins = Instr(op, res, a.ty.b if a.ty is not None and a.ty.k == 'vec' else None, [a, c])
     elif op == 'unreachable':
         ins = Instr(op, None, VOID, [])
     else:
